@@ -43,7 +43,7 @@ def run(ctx):
     ctx.cov["distinct_nontrivial"] = bad
     ctx.cov["rule"] = ("seeded scenarios: 2-8 DescribeGroups requests issued concurrently (1-3 waves) on one broker connection of the real client; a scripted raw broker answers what has arrived immediately or in batches (pipelining)"
                        " following a per-request script: ok, throttled, wrong correlation id, two answers swapped, frame truncated then closed, frame delivered in two parts, oversized / negative / 2-byte size prefix, well-framed garbage,"
-                       " close without answer, no answer at all; optionally one request cancelled; callback counts, completion times (virtual) and the payload bytes held by each caller after all later reads validated against ConnTrace.tla."
+                       " close without answer, no answer at all, silence on the whole connection from some request on; optionally one request cancelled; callback counts, completion times (virtual) and the payload bytes held by each caller after all later reads validated against ConnTrace.tla."
                        " non-trivial = scenario with a non-ok answer")
     if scen:
         ctx.sample([{k: v for k, v in e.items()} for e in scen[0]][:8])
